@@ -109,7 +109,7 @@ class Ctx:
             if v["key"] == key:
                 v["count"] += 1
                 return None
-        if len(self.violations) < 50:
+        if len(self.violations) < int(os.environ.get("VERIF_MAX_VIOL", "50")):
             self.violations.append({"sig": sig, "detail": detail, "replay": replay, "key": key, "count": 1})
         else:
             self.extra["violations_truncated"] = self.extra.get("violations_truncated", 0) + 1
@@ -163,6 +163,9 @@ class Ctx:
         ev = {"property_id": self.pid, "tier": self.tier, "seed": self.seed, "level": self.level,
               "coverage": cov, "assumptions": self.assumptions, "wall_s": round(time.time() - self.t0, 2),
               "violations": len(self.violations)}
+        if os.environ.get("VERIF_DUMP_VIOL"):
+            with open(os.environ["VERIF_DUMP_VIOL"], "w") as fh:
+                json.dump([{"sig": v["sig"], "count": v["count"], "case": v["replay"]} for v in self.violations], fh)
         with open(os.path.join(EVIDENCE_DIR, self.pid + ".json"), "w") as fh:
             json.dump(ev, fh, indent=1, default=str)
         for ln in lines:
